@@ -87,4 +87,20 @@ def SubState.run (s : SubState) : List SubTurn → SubState × List SubOut
     let (s'', os) := s'.run ts
     (s'', o :: os)
 
+/-! ### the push dispatcher (`push_loop.rs: dispatch_message`) -/
+
+/-- What the endpoint did with one POST. -/
+inductive Outcome where
+  | status (code : Nat)     -- an HTTP status arrived
+  | connError               -- connection refused / reset / closed without an answer
+  | pending                 -- no answer (yet)
+deriving DecidableEq, Repr
+
+/-- The turn the dispatcher issues for a delivery with ack id `a`: ack on an accepted status, nack on
+    any other status or a connection error, nothing while the request is unanswered. -/
+def dispatchTurn (a : Nat) : Outcome → Option SubTurn
+  | .status c => if pushAccepts c then some (.ack [a]) else some (.modify [(a, none)])
+  | .connError => some (.modify [(a, none)])
+  | .pending => none
+
 end Deltio
